@@ -151,6 +151,8 @@ package jsonschema
 
 //@ pred annsOwned(a *annotations) = new(a) && newOrNil(a.evaluatedIndexes) && newOrNil(a.evaluatedProperties) && a.endIndex >= 0
 //@ pred freshOrNil(m map[string]bool) = m == nil || fresh(m)
+//@ pred trueI(m map[int]bool) = forall k int {has(m, k)} :: m != nil && has(m, k) ==> m[k]
+//@ pred trueP(m map[string]bool) = forall k string {has(m, k)} :: m != nil && has(m, k) ==> m[k]
 //@ pred freshOrNilI(m map[int]bool) = m == nil || fresh(m)
 //@ pred annsSame(a *annotations) = a.allItems == old(a.allItems) && a.endIndex == old(a.endIndex) && a.allProperties == old(a.allProperties) \
 //@   && a.evaluatedIndexes == old(a.evaluatedIndexes) && a.evaluatedProperties == old(a.evaluatedProperties) \
@@ -164,6 +166,7 @@ package jsonschema
 //@   ensures annsOwned(a)
 //@   ensures a.evaluatedIndexes == old(a.evaluatedIndexes) || fresh(a.evaluatedIndexes)
 //@   ensures[C07] set: a.evaluatedIndexes != nil && has(a.evaluatedIndexes, i) && a.evaluatedIndexes[i]
+//@   ensures[C07] alltrue: old(trueI(a.evaluatedIndexes)) ==> trueI(a.evaluatedIndexes)
 //@   ensures[C07] keep: forall k int {has(a.evaluatedIndexes, k)} :: old(a.evaluatedIndexes != nil && has(a.evaluatedIndexes, k) && a.evaluatedIndexes[k]) ==> has(a.evaluatedIndexes, k) && a.evaluatedIndexes[k]
 
 //@ contract (*annotations).noteEndIndex(a, end)
@@ -174,9 +177,12 @@ package jsonschema
 
 //@ contract (*annotations).noteProperties(a, props)
 //@   requires annsOwned(a)
+//@   requires[C07] onlytrue: trueP(props)
 //@   modifies a.evaluatedProperties, a.evaluatedProperties.entries
 //@   ensures annsOwned(a)
 //@   ensures a.evaluatedProperties == old(a.evaluatedProperties) || fresh(a.evaluatedProperties)
+//@   ensures[C07] union: forall k string {has(a.evaluatedProperties, k)} :: (a.evaluatedProperties != nil && has(a.evaluatedProperties, k)) == (old(a.evaluatedProperties != nil && has(a.evaluatedProperties, k)) || old(props != nil && has(props, k)))
+//@   ensures[C07] alltrue: old(trueP(a.evaluatedProperties)) ==> trueP(a.evaluatedProperties)
 
 //@ contract (*annotations).merge(a, b)
 //@   requires annsOwned(a)
@@ -187,6 +193,9 @@ package jsonschema
 //@   ensures a.evaluatedProperties == old(a.evaluatedProperties) || fresh(a.evaluatedProperties)
 //@   ensures[C07] flags: b != nil ==> a.allItems == (old(a.allItems) || old(b.allItems)) && a.allProperties == (old(a.allProperties) || old(b.allProperties))
 //@   ensures[C07] endidx: b != nil ==> a.endIndex == ite(old(b.endIndex) > old(a.endIndex), old(b.endIndex), old(a.endIndex))
+//@   ensures[C07] idxunion: b != nil ==> (forall k int {has(a.evaluatedIndexes, k)} :: (a.evaluatedIndexes != nil && has(a.evaluatedIndexes, k)) == (old(a.evaluatedIndexes != nil && has(a.evaluatedIndexes, k)) || old(b.evaluatedIndexes != nil && has(b.evaluatedIndexes, k))))
+//@   ensures[C07] propunion: b != nil ==> (forall k string {has(a.evaluatedProperties, k)} :: (a.evaluatedProperties != nil && has(a.evaluatedProperties, k)) == (old(a.evaluatedProperties != nil && has(a.evaluatedProperties, k)) || old(b.evaluatedProperties != nil && has(b.evaluatedProperties, k))))
+//@   ensures[C07] alltrue: old(trueI(a.evaluatedIndexes) && trueP(a.evaluatedProperties)) && (b != nil ==> old(trueI(b.evaluatedIndexes) && trueP(b.evaluatedProperties))) ==> trueI(a.evaluatedIndexes) && trueP(a.evaluatedProperties)
 //@   ensures[C07] nilb: b == nil ==> a.allItems == old(a.allItems) && a.allProperties == old(a.allProperties) && a.endIndex == old(a.endIndex)
 
 //@ contract merge(s, t)
@@ -195,6 +204,9 @@ package jsonschema
 //@   ensures s != nil ==> result == s
 //@   ensures s == nil && t == nil ==> result == nil
 //@   ensures s == nil && t != nil ==> fresh(result)
+//@   ensures[C07] dom: forall k keyof(s) {has(result, k)} :: (result != nil && has(result, k)) == (old(s != nil && has(s, k)) || old(t != nil && has(t, k)))
+//@   ensures[C07] fromt: forall k keyof(s) {has(result, k)} :: old(t != nil && has(t, k)) ==> result != nil && result[k] == old(t[k])
+//@   ensures[C07] froms: forall k keyof(s) {has(result, k)} :: !old(t != nil && has(t, k)) && old(s != nil && has(s, k)) ==> result != nil && result[k] == old(s[k])
 
 // ---------------------------------------------------------------------------
 // resolve.go (helpers used by the evaluator)
@@ -250,6 +262,7 @@ package jsonschema
 //@   requires newOrNil(stk0)
 //@   requires stackOK: forall i int {stk0[i]} :: 0 <= i && i < len(stk0) ==> inRS(rs, stk0[i])
 //@   requires annsOK: callerAnns != nil ==> annsOwned(callerAnns)
+//@   requires annsT: callerAnns != nil ==> trueI(callerAnns.evaluatedIndexes) && trueP(callerAnns.evaluatedProperties)
 //@   modifies st.stack, st.stack.elems, callerAnns.allItems, callerAnns.endIndex, callerAnns.evaluatedIndexes, callerAnns.allProperties, callerAnns.evaluatedProperties, callerAnns.evaluatedIndexes.entries, callerAnns.evaluatedProperties.entries
 //@   ensures[C07] vfn: (result == nil) == vok(st, len(stk0), instance, schema)
 //@   ensures[C06,C10] stacklen: len(st.stack) == len(stk0)
@@ -287,12 +300,14 @@ package jsonschema
 //@   atline[C01] "var min, max int" pnamesok uses stacklen,pnames: isold(schema) && (schema.PropertyNames != nil ==> (forall k string {rvhas(instance, k)} :: rvhas(instance, k) ==> vok(st, len(stk0) + 1, rvof(anyOf(k, "string")), schema.PropertyNames)))
 //@   atline[C01] "if st.rs.draft == draft7 {#3" reqok uses shaped: isold(schema) && isold(schema.Required) && okReq(schema, instance)
 //@   atline[C01] "if schema.DependentSchemas != nil {" depreqok uses stacklen,depreq: st.rs.draft == 1 ==> isold(schema) && isold(schema.DependentRequired) && (forall k string {has(schema.DependentRequired, k)} :: has(schema.DependentRequired, k) && rvhas(instance, k) ==> isold(schema.DependentRequired[k]) && (forall j int {schema.DependentRequired[k][j]} :: 0 <= j && j < len(schema.DependentRequired[k]) ==> rvhas(instance, schema.DependentRequired[k][j])))
-//@   atline[C01] "if schema.DependencySchemas != nil {" depreq7ok uses stacklen,depreq7: st.rs.draft == 0 ==> isold(schema) && isold(schema.DependencyStrings) && (forall k string {has(schema.DependencyStrings, k)} :: has(schema.DependencyStrings, k) && rvhas(instance, k) ==> isold(schema.DependencyStrings[k]) && (forall j int {schema.DependencyStrings[k][j]} :: 0 <= j && j < len(schema.DependencyStrings[k]) ==> rvhas(instance, schema.DependencyStrings[k][j])))
+//@   atline[C01,C02] "if schema.DependencySchemas != nil {" depreq7ok uses stacklen,depreq7: st.rs.draft == 0 ==> isold(schema) && isold(schema.DependencyStrings) && (forall k string {has(schema.DependencyStrings, k)} :: has(schema.DependencyStrings, k) && rvhas(instance, k) ==> isold(schema.DependencyStrings[k]) && (forall j int {schema.DependencyStrings[k][j]} :: 0 <= j && j < len(schema.DependencyStrings[k]) ==> rvhas(instance, schema.DependencyStrings[k][j])))
 //@   atline[C01] "if schema.UnevaluatedProperties != nil && !anns.allProperties {" depschok uses stacklen,depsch: st.rs.draft == 1 ==> isold(schema) && isold(schema.DependentSchemas) && (forall k string {has(schema.DependentSchemas, k)} :: has(schema.DependentSchemas, k) && rvhas(instance, k) ==> vok(st, len(stk0) + 1, instance, schema.DependentSchemas[k]))
-//@   atline[C01] "if schema.UnevaluatedProperties != nil && !anns.allProperties {" depsch7ok uses stacklen,depsch7: st.rs.draft == 0 ==> isold(schema) && isold(schema.DependencySchemas) && (forall k string {has(schema.DependencySchemas, k)} :: has(schema.DependencySchemas, k) && rvhas(instance, k) ==> vok(st, len(stk0) + 1, instance, schema.DependencySchemas[k]))
+//@   atline[C01,C02] "if schema.UnevaluatedProperties != nil && !anns.allProperties {" depsch7ok uses stacklen,depsch7: st.rs.draft == 0 ==> isold(schema) && isold(schema.DependencySchemas) && (forall k string {has(schema.DependencySchemas, k)} :: has(schema.DependencySchemas, k) && rvhas(instance, k) ==> vok(st, len(stk0) + 1, instance, schema.DependencySchemas[k]))
 //@   atline[C07] "anns.allProperties = true" unevpok uses stacklen,anns,unevpf,unevp: isold(schema) && new(anns) && newOrNil(anns.evaluatedProperties) && (forall k string {rvhas(instance, k)} :: rvhas(instance, k) ==> (has(anns.evaluatedProperties, k) && anns.evaluatedProperties[k]) || vok(st, len(stk0) + 1, rvget(instance, k), schema.UnevaluatedProperties))
 //@   atline[C01] "if callerAnns != nil {" cp6 uses samejv,shaped,p_props,p_req: okProps(schema, instance) && isold(schema) && isold(schema.Required) && okReq(schema, instance)
 //@   atreturn[C07] mergedflags uses anns,c1,c2: result == nil && callerAnns != nil && applies ==> new(anns) && callerAnns.allItems == (old(callerAnns.allItems) || anns.allItems) && callerAnns.allProperties == (old(callerAnns.allProperties) || anns.allProperties) && callerAnns.endIndex == ite(anns.endIndex > old(callerAnns.endIndex), anns.endIndex, old(callerAnns.endIndex))
+//@   atreturn[C07] mergedidx uses anns,c1,c3,c4,c5: result == nil && callerAnns != nil && applies ==> new(anns) && (forall k int {has(callerAnns.evaluatedIndexes, k)} :: (callerAnns.evaluatedIndexes != nil && has(callerAnns.evaluatedIndexes, k)) == (old(callerAnns.evaluatedIndexes != nil && has(callerAnns.evaluatedIndexes, k)) || (anns.evaluatedIndexes != nil && has(anns.evaluatedIndexes, k))))
+//@   atreturn[C07] mergedprops uses anns,c1,c3,c4,c5: result == nil && callerAnns != nil && applies ==> new(anns) && (forall k string {has(callerAnns.evaluatedProperties, k)} :: (callerAnns.evaluatedProperties != nil && has(callerAnns.evaluatedProperties, k)) == (old(callerAnns.evaluatedProperties != nil && has(callerAnns.evaluatedProperties, k)) || (anns.evaluatedProperties != nil && has(anns.evaluatedProperties, k))))
 //@   atreturn[C01,C12] accepted uses samejv: result == nil && applies ==> jv(instance) == jv(inst0) && okType(schema, instance) && okConst(schema, instance) && okNum(schema, instance) && okStr(schema, instance) && okItems(schema, instance) && okProps(schema, instance) && okReq(schema, instance)
 //@   reject[C01] "type:" (schema.Type != "" && !tmatch(schema.Type, typeName(jv(instance)))) || (schema.Type == "" && !isnil(schema.Types) && (forall i int {schema.Types[i]} :: 0 <= i && i < len(schema.Types) ==> !tmatch(schema.Types[i], typeName(jv(instance)))))
 //@   reject[C01] "minimum:" isJNum(jv(instance)) && schema.Minimum != nil && jn(jv(instance)) < *schema.Minimum
@@ -313,7 +328,7 @@ package jsonschema
 //@   reject[C01] "minContains:" schema.Contains != nil && schema.MinContains != nil && vcount(st, len(stk0) + 1, instance, schema.Contains, rvlen(instance)) < *schema.MinContains
 //@   reject[C01] "maxContains:" schema.Contains != nil && schema.MaxContains != nil && vcount(st, len(stk0) + 1, instance, schema.Contains, rvlen(instance)) > *schema.MaxContains
 //@   reject[C01] "required:" isold(schema) && isold(schema.Required) && (exists j int :: 0 <= j && j < len(schema.Required) && !rvhas(instance, schema.Required[j]))
-//@   reject[C01] "dependentRequired[" isold(schema) && rvhas(instance, dprop) && (st.rs.draft == 1 ==> isold(schema.DependentRequired) && has(schema.DependentRequired, dprop) && (exists j int :: 0 <= j && j < len(schema.DependentRequired[dprop]) && !rvhas(instance, schema.DependentRequired[dprop][j]))) && (st.rs.draft == 0 ==> isold(schema.DependencyStrings) && has(schema.DependencyStrings, dprop) && (exists j int :: 0 <= j && j < len(schema.DependencyStrings[dprop]) && !rvhas(instance, schema.DependencyStrings[dprop][j])))
+//@   reject[C01,C02] "dependentRequired[" isold(schema) && rvhas(instance, dprop) && (st.rs.draft == 1 ==> isold(schema.DependentRequired) && has(schema.DependentRequired, dprop) && (exists j int :: 0 <= j && j < len(schema.DependentRequired[dprop]) && !rvhas(instance, schema.DependentRequired[dprop][j]))) && (st.rs.draft == 0 ==> isold(schema.DependencyStrings) && has(schema.DependencyStrings, dprop) && (exists j int :: 0 <= j && j < len(schema.DependencyStrings[dprop]) && !rvhas(instance, schema.DependencyStrings[dprop][j])))
 //@   reject[C12] "enum:" isold(schema) && isold(schema.Enum) && (forall j int {schema.Enum[j]} :: 0 <= j && j < len(schema.Enum) ==> !eqv(rvof(schema.Enum[j]), instance))
 //@   reject[C12] "const:" schema.Const != nil && !eqv(rvof(*schema.Const), instance)
 //@   reject[C12] "uniqueItems:" exists i int, j int :: 0 <= j && j < i && i < rvlen(instance) && eqv(rvindex(instance, i), rvindex(instance, j))
@@ -324,6 +339,9 @@ package jsonschema
 //@   ensures[C07] noleak3 uses c1,c2,c3,c4,c5,anns: err != nil && callerAnns != nil ==> newOrNil(callerAnns.evaluatedIndexes) && newOrNil(old(callerAnns.evaluatedIndexes)) && (forall k int :: has(callerAnns.evaluatedIndexes, k) == old(has(callerAnns.evaluatedIndexes, k)))
 //@   ensures[C07] noleak4 uses c1,c2,c3,c4,c5,anns: err != nil && callerAnns != nil ==> newOrNil(callerAnns.evaluatedProperties) && newOrNil(old(callerAnns.evaluatedProperties)) && (forall k string :: has(callerAnns.evaluatedProperties, k) == old(has(callerAnns.evaluatedProperties, k)))
 //@   loopinv c1: callerAnns != nil ==> annsOwned(callerAnns)
+//@   loopinv[C07] ctrue uses c1,c3,c4,c5,anns: callerAnns != nil ==> trueI(callerAnns.evaluatedIndexes) && trueP(callerAnns.evaluatedProperties)
+//@   loopinv[C07] ltrue uses anns: new(anns) && newOrNil(anns.evaluatedIndexes) && newOrNil(anns.evaluatedProperties) && trueI(anns.evaluatedIndexes) && trueP(anns.evaluatedProperties)
+//@   ensures[C07] annsT uses c1,c3,ctrue,ltrue,anns: callerAnns != nil ==> trueI(callerAnns.evaluatedIndexes) && trueP(callerAnns.evaluatedProperties)
 //@   loopinv c2: callerAnns != nil ==> callerAnns.allItems == old(callerAnns.allItems) && callerAnns.endIndex == old(callerAnns.endIndex) && callerAnns.allProperties == old(callerAnns.allProperties)
 //@   loopinv c3: callerAnns != nil ==> callerAnns.evaluatedIndexes == old(callerAnns.evaluatedIndexes) && callerAnns.evaluatedProperties == old(callerAnns.evaluatedProperties)
 //@   loopinv c4: callerAnns != nil ==> newOrNil(callerAnns.evaluatedIndexes) && newOrNil(old(callerAnns.evaluatedIndexes)) && (forall k int :: has(callerAnns.evaluatedIndexes, k) == old(has(callerAnns.evaluatedIndexes, k)))
@@ -367,19 +385,21 @@ package jsonschema
 //@   loop "range schema.DependentRequired"
 //@     invariant[C01] depreq uses stacklen,reqinv: isold(schema) && isold(schema.DependentRequired) && (forall k string {select(visited, k)} :: select(visited, k) && rvhas(instance, k) ==> isold(schema.DependentRequired[k]) && (forall j int {schema.DependentRequired[k][j]} :: 0 <= j && j < len(schema.DependentRequired[k]) ==> rvhas(instance, schema.DependentRequired[k][j])))
 //@   loop "range schema.DependencyStrings"
-//@     invariant[C01] depreq7 uses stacklen,reqinv: isold(schema) && isold(schema.DependencyStrings) && (forall k string {select(visited, k)} :: select(visited, k) && rvhas(instance, k) ==> isold(schema.DependencyStrings[k]) && (forall j int {schema.DependencyStrings[k][j]} :: 0 <= j && j < len(schema.DependencyStrings[k]) ==> rvhas(instance, schema.DependencyStrings[k][j])))
+//@     invariant[C01,C02] depreq7 uses stacklen,reqinv: isold(schema) && isold(schema.DependencyStrings) && (forall k string {select(visited, k)} :: select(visited, k) && rvhas(instance, k) ==> isold(schema.DependencyStrings[k]) && (forall j int {schema.DependencyStrings[k][j]} :: 0 <= j && j < len(schema.DependencyStrings[k]) ==> rvhas(instance, schema.DependencyStrings[k][j])))
 //@   loop "range schema.DependentSchemas"
 //@     invariant[C01] depsch uses stacklen: isold(schema) && isold(schema.DependentSchemas) && (forall k string {select(visited, k)} :: select(visited, k) && rvhas(instance, k) ==> vok(st, len(stk0) + 1, instance, schema.DependentSchemas[k]))
 //@   loop "range schema.DependencySchemas"
-//@     invariant[C01] depsch7 uses stacklen: isold(schema) && isold(schema.DependencySchemas) && (forall k string {select(visited, k)} :: select(visited, k) && rvhas(instance, k) ==> vok(st, len(stk0) + 1, instance, schema.DependencySchemas[k]))
+//@     invariant[C01,C02] depsch7 uses stacklen: isold(schema) && isold(schema.DependencySchemas) && (forall k string {select(visited, k)} :: select(visited, k) && rvhas(instance, k) ==> vok(st, len(stk0) + 1, instance, schema.DependencySchemas[k]))
 //@   loop "range props"
-//@     invariant[C01] reqinv: isold(props) && (forall j int {props[j]} :: 0 <= j && j <= $idx ==> rvhas(instance, props[j]) || len(missing) > 0)
+//@     invariant[C01,C02] reqinv: isold(props) && (forall j int {props[j]} :: 0 <= j && j <= $idx ==> rvhas(instance, props[j]) || len(missing) > 0)
 //@     exit[C01] reqdone uses reqinv: isold(props) && (forall j int {props[j]} :: 0 <= j && j < len(props) ==> rvhas(instance, props[j]) || len(missing) > 0)
-//@     invariant[C01] reqmiss: isold(props) && newOrNil(missing) && $idx < len(props) && (len(missing) > 0 ==> (exists j int :: 0 <= j && j <= $idx && !rvhas(instance, props[j])))
+//@     invariant[C01,C02] reqmiss: isold(props) && newOrNil(missing) && $idx < len(props) && (len(missing) > 0 ==> (exists j int :: 0 <= j && j <= $idx && !rvhas(instance, props[j])))
 //@     exit[C01] reqmissdone uses reqmiss: isold(props) && newOrNil(missing) && (len(missing) > 0 ==> (exists j int :: 0 <= j && j < len(props) && !rvhas(instance, props[j])))
 //@   loop "range properties(instance)#2"
+//@     invariant[C07] evt: new(evalProps) && trueP(evalProps)
 //@     invariant[C01,C07] fal: new(evalProps) && (forall k string {select(visited, k)} :: select(visited, k) ==> (has(evalProps, k) && evalProps[k]) || len(disallowed) > 0)
 //@   loop "range properties(instance)#3"
+//@     invariant[C07] evt: new(evalProps) && trueP(evalProps)
 //@     invariant[C01,C07] addp uses stacklen: new(evalProps) && isold(schema) && (forall k string {select(visited, k)} :: select(visited, k) ==> has(evalProps, k) && evalProps[k] && (pre(has(evalProps, k) && evalProps[k]) || vok(st, len(stk0) + 1, rvget(instance, k), schema.AdditionalProperties))) && (forall k string {has(evalProps, k)} :: !select(visited, k) ==> (has(evalProps, k) && evalProps[k]) == pre(has(evalProps, k) && evalProps[k]))
 //@   loop "range properties(instance)#4"
 //@     invariant[C01] pnames uses stacklen: isold(schema) && (forall k string {select(visited, k)} :: select(visited, k) ==> vok(st, len(stk0) + 1, rvof(anyOf(k, "string")), schema.PropertyNames))
@@ -391,10 +411,13 @@ package jsonschema
 //@     invariant[C07] unevi uses stacklen,unevif: isold(schema) && new(anns) && newOrNil(anns.evaluatedIndexes) && anns.endIndex <= i && (forall j int {rvindex(instance, j)} :: anns.endIndex <= j && j < i ==> (has(anns.evaluatedIndexes, j) && anns.evaluatedIndexes[j]) || vok(st, len(stk0) + 1, rvindex(instance, j), schema.UnevaluatedItems))
 //@     exit[C07] unevidone uses stacklen,anns,unevif,unevi: isold(schema) && new(anns) && newOrNil(anns.evaluatedIndexes) && (i >= rvlen(instance) ==> (forall j int {rvindex(instance, j)} :: anns.endIndex <= j && j < rvlen(instance) ==> (has(anns.evaluatedIndexes, j) && anns.evaluatedIndexes[j]) || vok(st, len(stk0) + 1, rvindex(instance, j), schema.UnevaluatedItems)))
 //@   loop "range properties(instance)"
+//@     invariant[C07] evt: new(evalProps) && trueP(evalProps)
 //@     invariant[C01,C07] ppout uses stacklen,ppin: new(evalProps) && isold(schemaInfo) && isold(schemaInfo.patternProperties) && (forall k string, re *regexp.Regexp {select(visited, k), has(schemaInfo.patternProperties, re)} :: select(visited, k) && has(schemaInfo.patternProperties, re) && reMatch(re, k) ==> vok(st, len(stk0) + 1, rvget(instance, k), schemaInfo.patternProperties[re]) && has(evalProps, k) && evalProps[k])
 //@   loop "range schemaInfo.patternProperties"
+//@     invariant[C07] evt: new(evalProps) && trueP(evalProps)
 //@     invariant[C01,C07] ppin uses stacklen,ppout: new(evalProps) && isold(schemaInfo) && isold(schemaInfo.patternProperties) && val == rvget(instance, prop) && (forall k string, re *regexp.Regexp {select(outervisited, k), has(schemaInfo.patternProperties, re)} :: select(outervisited, k) && k != prop && has(schemaInfo.patternProperties, re) && reMatch(re, k) ==> vok(st, len(stk0) + 1, rvget(instance, k), schemaInfo.patternProperties[re]) && has(evalProps, k) && evalProps[k]) && (forall re *regexp.Regexp {select(visited, re)} :: select(visited, re) && reMatch(re, prop) ==> vok(st, len(stk0) + 1, rvget(instance, prop), schemaInfo.patternProperties[re]) && has(evalProps, prop) && evalProps[prop])
 //@   loop "range schema.Properties"
+//@     invariant[C07] evt: new(evalProps) && trueP(evalProps)
 //@     invariant[C01,C07] propsinv uses stacklen: isold(schema) && isold(schema.Properties) && new(evalProps) && (forall k string {select(visited, k)} :: select(visited, k) && rvhas(instance, k) ==> vok(st, len(stk0) + 1, rvget(instance, k), schema.Properties[k]) && has(evalProps, k) && evalProps[k])
 //@   loop "range instance.Len()"
 //@     invariant[C01] cnt uses stacklen: isold(schema) && 0 <= $i && nContains == vcount(st, len(stk0) + 1, instance, schema.Contains, $i)
